@@ -8,6 +8,7 @@ import (
 	"sort"
 	"strings"
 	"sync"
+	"sync/atomic"
 	"time"
 
 	"github.com/blugelabs/bluge"
@@ -607,11 +608,12 @@ func runC07(c *vk.Ctx) {
 	nQ := c.Pick(40, 50)
 	workers := runtime.NumCPU()
 	var wg sync.WaitGroup
+	var nextCorpus atomic.Int64 // shared work queue: slow (geo) corpora do not pile up on one worker
 	for w := 0; w < workers; w++ {
 		wg.Add(1)
 		go func(w int) {
 			defer wg.Done()
-			for i := w; i < nCorp; i += workers {
+			for i := int(nextCorpus.Add(1)) - 1; i < nCorp; i = int(nextCorpus.Add(1)) - 1 {
 				r := rand.New(rand.NewSource(vk.SubSeed(c.Seed, fmt.Sprintf("c07-corpus-%d", i))))
 				co := model.GenCorpus(r, model.CorpusOpts{MaxDocs: 40, Geo: true, MultiValue: true})
 				kinds := c07MixedKinds
@@ -660,8 +662,20 @@ func runC07(c *vk.Ctx) {
 		}(w)
 	}
 	wg.Wait()
-	for i := 0; i < c.Pick(30, 600); i++ {
-		c07MergedFront(c, i)
+	{
+		nmf := c.Pick(30, 600)
+		var next atomic.Int64
+		var wg2 sync.WaitGroup
+		for w := 0; w < workers; w++ {
+			wg2.Add(1)
+			go func() {
+				defer wg2.Done()
+				for i := int(next.Add(1)) - 1; i < nmf; i = int(next.Add(1)) - 1 {
+					c07MergedFront(c, i)
+				}
+			}()
+		}
+		wg2.Wait()
 	}
 	// small scope
 	var assignments []int
